@@ -593,7 +593,7 @@ func queryFace(ft *font.Font, w func(a ...any), seed uint64) {
 
 const (
 	cpuBudget  = 10.0
-	allocFixed = 64 << 20
+	allocFixed = 384 << 20
 	allocPerB  = 256
 )
 
@@ -720,7 +720,7 @@ func Main() {
 	run.Finish(vrun.Level{Level: "fault_enumeration",
 		Rule: "case i: corpus file (i mod #files) x one structure-aware mutation: truncation at a table boundary or 0..64 bytes into a table; an aligned 16/32-bit field in the first 256 bytes of a table (walked systematically over the tables first) or deeper, set to {0,1,2,0x7FFF,0x8000,0xFFFF,table length,length-1,file length,random}; a directory entry's offset/length/tag; swapped table bodies; a container header field (sfnt/TTC/WOFF/dfont); 1-4 random bytes; or a faulting Resource whose k-th Read/ReadAt/Seek fails, is short, or reports EOF. Then open + describe + footprint + query catalogue + shaping on every face. " +
 			"non-trivial = mutant accepted with >=1 face whose query digest differs from its parent's, or rejected by a table parser (not by the container check); distinct by hash(file, mutation)",
-		Assumptions: []string{"CPU per case measured on a locked OS thread; allocation by runtime/metrics delta in single-goroutine child processes under ulimit -v 8 GiB", "budgets: 10 s CPU, 64 MiB + 256 B per input byte; calibration on the unmutated corpus recorded in coverage"},
+		Assumptions: []string{"CPU per case measured on a locked OS thread; allocation by runtime/metrics delta in single-goroutine child processes under ulimit -v 8 GiB", "budgets: 10 s CPU, 384 MiB + 256 B per input byte; calibration on the unmutated corpus recorded in coverage"},
 		Floor:       2000})
 }
 
@@ -822,6 +822,11 @@ func genRecursionCase(seed int64, k int, files []*corpus.File) *Case {
 		sites := tagIndex[0x676c7966] // glyf
 		if len(sites) > 0 {
 			site := sites[(k/2)%len(sites)]
+			if (k/2)%3 == 2 {
+				if c := compositeChain(site, r); c != nil {
+					return c
+				}
+			}
 			if c := selfComposite(site, r); c != nil {
 				return c
 			}
@@ -832,6 +837,11 @@ func genRecursionCase(seed int64, k int, files []*corpus.File) *Case {
 		return genFileCase(seed, k, files)
 	}
 	site := sites[(k/2)%len(sites)]
+	if (k/2)%3 == 1 {
+		if c := cffFanout(site, r); c != nil {
+			return c
+		}
+	}
 	if c := cffSelfCall(site, r, k%4 >= 2); c != nil {
 		return c
 	}
@@ -851,6 +861,80 @@ func findTable(f *corpus.File, tag uint32) (tbl, bool) {
 		}
 	}
 	return tbl{}, false
+}
+
+// compositeChain rewrites a chain of composite glyphs so that every component of
+// composite i is composite i+1: the expansion has fan-out^depth leaves (a "billion
+// laughs" outline) although no cycle exists.
+func compositeChain(site tagSite, r *gen.RNG) *Case {
+	b := site.file.Bytes()
+	head, ok1 := findTable(site.file, 0x68656164)
+	loca, ok2 := findTable(site.file, 0x6c6f6361)
+	if !ok1 || !ok2 || head.off+52 > len(b) {
+		return nil
+	}
+	long := u16(b, head.off+50) == 1
+	n := loca.length / 2
+	if long {
+		n = loca.length / 4
+	}
+	glyphOff := func(i int) int {
+		if long {
+			return u32(b, loca.off+4*i)
+		}
+		return 2 * u16(b, loca.off+2*i)
+	}
+	type comp struct {
+		gid  int
+		idxs []int // file offsets of the glyphIndex fields
+	}
+	var comps []comp
+	for g := 0; g+1 < n && g < 70000 && len(comps) < 64; g++ {
+		lo, hi := site.t.off+glyphOff(g), site.t.off+glyphOff(g+1)
+		if hi-lo < 16 || hi > len(b) || int16(u16(b, lo)) >= 0 {
+			continue
+		}
+		c := comp{gid: g}
+		for p := lo + 10; p+4 <= hi; {
+			flags := u16(b, p)
+			c.idxs = append(c.idxs, p+2)
+			p += 4
+			if flags&1 != 0 {
+				p += 4
+			} else {
+				p += 2
+			}
+			switch {
+			case flags&0x08 != 0:
+				p += 2
+			case flags&0x40 != 0:
+				p += 4
+			case flags&0x80 != 0:
+				p += 8
+			}
+			if flags&0x20 == 0 {
+				break
+			}
+		}
+		if len(c.idxs) >= 2 {
+			comps = append(comps, c)
+		}
+	}
+	if len(comps) < 6 {
+		return nil
+	}
+	gen.Shuffle(r, comps)
+	depth := len(comps)
+	if depth > 28 {
+		depth = 28
+	}
+	c := &Case{File: site.file.ID, Kind: "glyf-composite-fanout", Note: fmt.Sprintf("chain of %d composites, fan-out %d, root glyph %d", depth, len(comps[0].idxs), comps[0].gid)}
+	for i := 0; i+1 < depth; i++ {
+		for _, o := range comps[i].idxs {
+			c.Edits = append(c.Edits, Edit{Off: o, Data: put16(uint16(comps[i+1].gid))})
+		}
+	}
+	return c
 }
 
 func selfComposite(site tagSite, r *gen.RNG) *Case {
@@ -927,6 +1011,61 @@ func cffIndex(b []byte, off int) (objs [][2]int, end int, ok bool) {
 		objs = append(objs, [2]int{lo, hi})
 	}
 	return objs, base + rd(count), true
+}
+
+// cffFanout fills global subroutines 0..d-1 with calls to the next one: the call
+// depth stays within the interpreter's limit but the number of executed calls is
+// (subr length / 2) ^ d.
+func cffFanout(site tagSite, r *gen.RNG) *Case {
+	b := site.file.Bytes()
+	o := site.t.off
+	if o+4 > len(b) {
+		return nil
+	}
+	p := o + int(b[o+2])
+	var gsubrs [][2]int
+	for i := 0; i < 4; i++ {
+		objs, end, ok := cffIndex(b, p)
+		if !ok {
+			return nil
+		}
+		if i == 3 {
+			gsubrs = objs
+		}
+		p = end
+	}
+	if len(gsubrs) < 4 || len(gsubrs) >= 1240 {
+		return nil
+	}
+	d := len(gsubrs) - 1
+	if d > 9 {
+		d = 9
+	}
+	c := &Case{File: site.file.ID, Kind: "cff-subr-fanout", Note: fmt.Sprintf("global subrs 0..%d each call the next one repeatedly", d-1)}
+	for i := 0; i < d; i++ {
+		s := gsubrs[i]
+		n := s[1] - s[0]
+		if n < 4 {
+			return nil
+		}
+		body := make([]byte, n)
+		for k := 0; k+1 < n; k += 2 {
+			body[k], body[k+1] = byte(139+(i+1-107)), 29 // <i+1 - bias> callgsubr
+		}
+		if n%2 == 1 {
+			body[n-1] = 11 // return
+		}
+		c.Edits = append(c.Edits, Edit{Off: s[0], Data: body})
+	}
+	if cs := cffCharStrings(b, o); cs != nil {
+		for k := 0; k < 3 && k < len(cs); k++ {
+			g := cs[r.Intn(len(cs))]
+			if g[1]-g[0] >= 2 {
+				c.Edits = append(c.Edits, Edit{Off: g[0], Data: []byte{32, 29}})
+			}
+		}
+	}
+	return c
 }
 
 func cffSelfCall(site tagSite, r *gen.RNG, withReturn bool) *Case {
